@@ -26,16 +26,17 @@ REQUIRED_THEOREMS = [
     "rkf45_amp4", "fixedStepper_steps", "fixedStepper_is_iterate",
     "adaptive_ends_at_or_after_tend", "adaptive_overshoot_lt_dtmin", "adaptive_exact_end",
     "global_error_le_sum_local", "euler_local_error_le_estimate",
+    "implicitStep_cells", "cnStep_cells", "rkf45_amp5", "rkf45_quadrature", "adaptive_euler_global_error",
+    "adaptive_euler_model_global_error", "ctl_constants_sane",
 ]
 
 # theorems of Props/C06.lean whose statement is about the constants of Generated/Tableau.lean:
 # a failing build whose errors all lie inside these theorems is a broken *generated* proof
 # obligation (the source constants changed), not a broken check
 GENERATED_DEPENDENT = [
-    "rk4_amp", "rk4_quadrature", "rk4_tableau", "rkf45_rowsum", "rkf45_order4", "rkf45_order5",
-    "rkf45_error_is_difference", "rkf45_amp4", "rkf45_amp5", "rkf45_quadrature", "rkf45_quadrature5",
-    "rkf45_estimate_amp", "ab2_recursion", "ab2_first_step", "ab2_quadrature", "ab2_numba_same",
-    "ctl_constants_sane", "ctl_threshold_consistent", "adjustDt_grows_at_most", "adjustDt_shrinks_at_most",
+    "rk4_tableau", "rk4_amp", "rk4_quadrature", "ab2_numba_same", "ab2_recursion", "ab2_first_step",
+    "ab2_quadrature", "rkf45_rowsum", "rkf45_high_weights", "rkf45_amp4", "rkf45_amp5", "rkf45_quadrature",
+    "rkf45_quadrature5", "rkf45_order4", "rkf45_order5", "ctl_constants_sane", "ctl_threshold_consistent",
 ]
 
 RULE = ("linear test equations u' = a u + b0 + b1 t + b2 t^2 + b3 t^3 (real and complex a; flavours: "
@@ -239,7 +240,55 @@ def _cells(arr):
     return [[float(x.real), float(x.imag)] for x in arr]
 
 
+CASE_TIME_LIMIT = 90.0      # seconds per real execution (soft: SIGALRM -> recorded as TimeoutError)
+CASE_HARD_LIMIT = 240.0     # watchdog: a worker stuck inside compiled code is terminated
+
+
+class _Deadline:
+    """time limit for one execution of the real code.  A run that does not come back (e.g. a
+    controller loop that never reaches t_end after a stepper returned a wrong time) is reported as a
+    TimeoutError of that case instead of stalling the check."""
+
+    def __init__(self, soft=CASE_TIME_LIMIT, hard=CASE_HARD_LIMIT):
+        self.soft, self.hard = soft, hard
+
+    def __enter__(self):
+        import signal
+        import threading
+
+        def on_alarm(_sig, _frm):
+            raise TimeoutError(f"no result within {self.soft:.0f} s")
+
+        self.use_signal = threading.current_thread() is threading.main_thread()
+        if self.use_signal:
+            self.old = signal.signal(signal.SIGALRM, on_alarm)
+            signal.setitimer(signal.ITIMER_REAL, self.soft)
+        self.watchdog = threading.Timer(self.hard, lambda: os._exit(3))
+        self.watchdog.daemon = True
+        self.watchdog.start()
+        return self
+
+    def __exit__(self, *exc):
+        import signal
+
+        self.watchdog.cancel()
+        if self.use_signal:
+            signal.setitimer(signal.ITIMER_REAL, 0)
+            signal.signal(signal.SIGALRM, self.old)
+        return False
+
+
 def exec_case(task):
+    """run one case on the real code (with a time limit); returns a plain dict"""
+    try:
+        with _Deadline():
+            return _exec_case(task)
+    except TimeoutError as e:
+        return {"mode": task["mode"], "segments": [], "error": {"type": "TimeoutError", "msg": str(e), "segment": 0},
+                "calls": None, "initial_untouched": None}
+
+
+def _exec_case(task):
     """run one case on the real code; returns a plain dict (see compare_* for its use)"""
     import numba as nb
     import numpy as np
